@@ -50,13 +50,55 @@ class _ForkProc:
             pass
 
 
-def _log_many(logger, tag, k):
+# exception classes the reconstruction of an object on the reader's side can raise (`queue.get()` un-pickles the record
+# with its `extra`): files that vanished, sockets, truncated nested pickles, missing modules ...
+LOAD_ERRORS = {"OSError": OSError, "FileNotFoundError": FileNotFoundError, "ConnectionResetError": ConnectionResetError,
+               "BrokenPipeError": BrokenPipeError, "PermissionError": PermissionError, "TimeoutError": TimeoutError,
+               "EOFError": EOFError, "RuntimeError": RuntimeError, "ValueError": ValueError, "TypeError": TypeError,
+               "KeyError": KeyError, "AttributeError": AttributeError, "ImportError": ImportError,
+               "ModuleNotFoundError": ModuleNotFoundError, "MemoryError": MemoryError, "StopIteration": StopIteration,
+               "AssertionError": AssertionError, "LookupError": LookupError, "RecursionError": RecursionError,
+               "NotImplementedError": NotImplementedError, "ZeroDivisionError": ZeroDivisionError,
+               "BufferError": BufferError}
+
+
+def _raise_on_load(name):
+    import pickle
+    cls = pickle.UnpicklingError if name == "UnpicklingError" else LOAD_ERRORS[name]
+    raise cls("the object cannot be rebuilt on the reader's side (%s)" % name)
+
+
+class Unloadable:
+    """pickles fine; un-pickling it raises the named exception (in the process that reads the queue)"""
+
+    def __init__(self, name):
+        self.name = name
+
+    def __reduce__(self):
+        return (_raise_on_load, (self.name,))
+
+
+def poisoned(poison, proc_no, i):
+    """is message i of process proc_no one whose record cannot be rebuilt by the worker?"""
+    if not poison:
+        return False
+    who = poison.get("who", "both")
+    if (who == "child" and proc_no == 0) or (who == "owner" and proc_no != 0):
+        return False
+    return i % poison["every"] == poison["every"] - 1
+
+
+def _log_many(logger, tag, k, poison=None):
+    proc_no = int(tag[1:].split("-")[0]) if tag.startswith("P") else 0
     for i in range(k):
-        logger.info("%s-%d" % (tag, i))
+        if poisoned(poison, proc_no, i):
+            logger.bind(blob=Unloadable(poison["exc"])).info("%s-%d" % (tag, i))
+        else:
+            logger.info("%s-%d" % (tag, i))
 
 
-def child_main(logger, n, nthr, k, do_remove):
-    ths = [threading.Thread(target=_log_many, args=(logger, "P%d-T%d" % (n, j), k)) for j in range(nthr)]
+def child_main(logger, n, nthr, k, do_remove, poison=None):
+    ths = [threading.Thread(target=_log_many, args=(logger, "P%d-T%d" % (n, j), k, poison)) for j in range(nthr)]
     for t in ths:
         t.start()
     for t in ths:
@@ -67,7 +109,7 @@ def child_main(logger, n, nthr, k, do_remove):
         logger.info("P%d-after-remove" % n)   # goes nowhere (handler removed in the child)
 
 
-def parent_run(method, nproc, nthr, k, path, child_remove, repo):
+def parent_run(method, nproc, nthr, k, path, child_remove, repo, poison=None):
     if repo not in sys.path:
         sys.path.insert(0, repo)
     import loguru._logger as lg
@@ -78,18 +120,21 @@ def parent_run(method, nproc, nthr, k, path, child_remove, repo):
     logger.add(path, enqueue=True, context=ctx, format="{message}", catch=False)
     mk = (lambda target, args: _ForkProc(target, args)) if method == "osfork" else \
         (lambda target, args: ctx.Process(target=target, args=args))
-    procs = [mk(child_main, (logger, n + 1, nthr, k, child_remove)) for n in range(nproc)]
+    procs = [mk(child_main, (logger, n + 1, nthr, k, child_remove, poison)) for n in range(nproc)]
     for p in procs:
         p.start()
-    ths = [threading.Thread(target=_log_many, args=(logger, "P0-T%d" % j, k)) for j in range(nthr)]
+    ths = [threading.Thread(target=_log_many, args=(logger, "P0-T%d" % j, k, poison)) for j in range(nthr)]
     for t in ths:
         t.start()
     for t in ths:
         t.join()
+    note = "" if not poison else (" [every %d-th message of %s carries an `extra` object whose un-pickling raises %s: "
+                                  "those are reported and skipped, nothing else may be lost]"
+                                  % (poison["every"], poison.get("who", "both"), poison["exc"]))
     for p in procs:
         p.join(90)
         if p.is_alive():
-            bad.append("child process did not finish within 90 s (%s, %d procs)" % (method, nproc))
+            bad.append("child process did not finish within 90 s (%s, %d procs)%s" % (method, nproc, note))
             p.terminate()
         elif p.exitcode != 0:
             bad.append("child process exit code %r" % (p.exitcode,))
@@ -101,16 +146,17 @@ def parent_run(method, nproc, nthr, k, path, child_remove, repo):
     th = threading.Thread(target=fin, daemon=True)
     th.start()
     if not done.wait(60):
-        bad.append("complete() in the owner did not return within 60 s")
+        bad.append("complete() in the owner did not return within 60 s" + note)
         return {"bad": bad}
     with open(path, encoding="utf8") as f:
         mid = f.read()
-    expected = {"P%d-T%d-%d" % (n, j, i) for n in range(nproc + 1) for j in range(nthr) for i in range(k)}
+    expected = {"P%d-T%d-%d" % (n, j, i) for n in range(nproc + 1) for j in range(nthr) for i in range(k)
+                if not poisoned(poison, n, i)}
     if not bad:
         missing = expected - set(mid.split("\n"))
         if missing:
             bad.append("after the children's complete() and the owner's complete(), %d messages are not in the "
-                       "file, e.g. %r" % (len(missing), sorted(missing)[:3]))
+                       "file, e.g. %r%s" % (len(missing), sorted(missing)[:3], note))
     logger.remove()
     with open(path, encoding="utf8") as f:
         text = f.read()
@@ -119,8 +165,8 @@ def parent_run(method, nproc, nthr, k, path, child_remove, repo):
     lines = text.split("\n")[:-1]
     if sorted(lines) != sorted(expected):
         extra = [l for l in lines if l not in expected]
-        bad.append("file content differs from the set of logged messages: %d lines, %d expected, unexpected %r"
-                   % (len(lines), len(expected), extra[:3]))
+        bad.append("file content differs from the set of logged messages: %d lines, %d expected, unexpected %r%s"
+                   % (len(lines), len(expected), extra[:3], note))
     last = {}
     for l in lines:
         if l in expected:
@@ -132,14 +178,14 @@ def parent_run(method, nproc, nthr, k, path, child_remove, repo):
     return {"bad": bad}
 
 
-def isolated_run(method, nproc, nthr, k, path, child_remove, repo, timeout=240):
+def isolated_run(method, nproc, nthr, k, path, child_remove, repo, timeout=240, poison=None):
     """parent_run in a process of its own: a case in which some thread hangs for ever (a complete() that never
     returns keeps the logger lock, and every later os.fork() of the same process would then wait for it in
     acquire_locks()) cannot disturb the cases after it, and the whole case has a deadline."""
     import json
     import subprocess
     verif = os.path.dirname(os.path.dirname(os.path.abspath(__file__)))
-    cfg = json.dumps([method, nproc, nthr, k, path, child_remove, repo])
+    cfg = json.dumps([method, nproc, nthr, k, path, child_remove, repo, poison])
     env = dict(os.environ, PYTHONPATH=repo + os.pathsep + verif)
     try:
         p = subprocess.run([sys.executable, "-m", "harness.c03_child", cfg], cwd=verif, env=env, timeout=timeout,
